@@ -6,7 +6,7 @@ CONSTANTS
   MaxTx = 2
   Fuel = 3
   Level = 1
-  Genesis <- Genesis0
+  Genesis <- GenesisAdm
   CallMenu <- AdmCalls
   BehMenu <- AdmMenu
 VIEW view
